@@ -453,8 +453,27 @@ func init() {
 	ext("fmt.Println", func(fr *frame, a []value) value { return tuple{0, nilErr} })
 	ext("fmt.Print", func(fr *frame, a []value) value { return tuple{0, nilErr} })
 	ext("fmt.Sscanf", func(fr *frame, a []value) value {
-		unsupported("fmt.Sscanf")
-		return nil
+		// only "%d" into *int (X-Keep-Replicas-Stored)
+		in, ok := a[0].(string)
+		if !ok || argString(a[1]) != "%d" {
+			unsupported("fmt.Sscanf: only concrete input with format %%d is modelled")
+		}
+		ptrs := a[2].([]value)
+		var n int
+		cnt, err := fmt.Sscanf(in, "%d", &n)
+		if err != nil {
+			return tuple{cnt, mkError(fr, err.Error())}
+		}
+		p := ptrs[0].(iface).v.(*value)
+		switch (*p).(type) {
+		case int:
+			*p = n
+		case int64:
+			*p = int64(n)
+		default:
+			unsupported("fmt.Sscanf: destination %T", *p)
+		}
+		return tuple{cnt, nilErr}
 	})
 
 	// ---- logging: no-ops ----
